@@ -239,6 +239,62 @@ def run(chk):
                      f"state_gradient deviates from central finite differences by {worst:.2e} at entry {where} ({len(ops)} environment(s), "
                      f"{shape} parameter table, {info['derivatives']} propagator derivatives)", info)
 
+    # ---- very short process tensors (one and two steps, built by hand: PT-TEMPO cannot produce a one-step tensor) with two and
+    # three parameters: the parameter table is 2N x M whatever its shape looks like (square tables included) -----------------
+    for it in range(6 if thorough else 3):
+        N = [1, 1, 2][it % 3]
+        M = [2, 3, 2][it % 3] if it < 3 else rng.choice([1, 2, 3])
+        g_ = np.random.default_rng(chk.seed * 7 + it)
+        hand = oqupy.process_tensor.SimpleProcessTensor(2, dt=0.2)
+        for k_ in range(N):
+            hand.set_mpo_tensor(k_, (np.eye(4) + 0.2 * (g_.normal(size=(4, 4)) + 1j * g_.normal(size=(4, 4)))).reshape(1, 1, 4, 4))
+        for k_ in range(N + 1):
+            hand.set_cap_tensor(k_, np.ones(1, dtype=complex))
+        sm_ = oqupy.operators.sigma("-")
+        sy_ = oqupy.operators.sigma("y")
+        hamf = (lambda x, y: x * sx + y * sz) if M == 2 else (lambda x, y, z: x * sx + y * sz + z * sy_) if M == 3 else (lambda x: x * sx + 0.3 * sz)
+        gamf = (lambda *p_: 0.1 + 0.05 * p_[0] * p_[0])
+        psys = oqupy.ParameterizedSystem(hamf, gammas=[gamf], lindblad_operators=[lambda *p_: sm_])
+        params = 0.2 + 0.5 * g_.random(size=(2 * N, M))
+        rho0 = oqupy.operators.spin_dm("x+")
+        target = (oqupy.operators.spin_dm("z-") + 0.3 * oqupy.operators.spin_dm("y+")).T.copy()
+        info = {"kind": "short-process-tensor", "N": N, "M": M, "parameters": params.tolist()}
+        chk.search_cases += 1
+        chk.count("finite_differences_short")
+        chk.case({k: v for k, v in info.items() if k != "parameters"}, ("fd-short", N, M, it))
+        try:
+            res = quiet(oqupy.state_gradient, system=psys, initial_state=rho0, target_derivative=target, process_tensors=[hand],
+                        parameters=params.copy(), progress_type="silent")
+        except Exception as ex:
+            chk.fail("gradient-raises", f"state_gradient raises {ex!r} for a {N}-step process tensor and a {2 * N} x {M} parameter table", info)
+            continue
+        I2 = np.eye(2)
+
+        def liou_(p_):
+            H_, g2_ = hamf(*p_), gamf(*p_)
+            AdA = sm_.conj().T @ sm_
+            return -1j * (np.kron(H_, I2) - np.kron(I2, H_.T)) + g2_ * (np.kron(sm_, sm_.conj()) - 0.5 * np.kron(AdA, I2) - 0.5 * np.kron(I2, AdA.T))
+
+        def obj_(pp):
+            from scipy.linalg import expm
+            props_ = [(expm(liou_(pp[2 * k]) * 0.1), expm(liou_(pp[2 * k + 1]) * 0.1)) for k in range(N)]
+            d_ = quiet(oqupy.compute_dynamics, InjSystem(2, props_), initial_state=rho0, process_tensor=[hand], dt=0.2, num_steps=N, progress_type="silent")
+            return np.sum(target.reshape(-1) * np.array(d_.states[-1]).reshape(-1)).real, d_
+        _, fw_ = obj_(params)
+        ddev = max(np.abs(np.array(a) - np.array(b)).max() for a, b in zip(res["dynamics"].states, fw_.states))
+        grad_ = np.array(res["gradient"])
+        worst = 0.0
+        if grad_.shape == (2 * N, M):
+            for k in range(2 * N):
+                for j in range(M):
+                    pp, pm = params.copy(), params.copy()
+                    pp[k, j] += 1e-4
+                    pm[k, j] -= 1e-4
+                    worst = max(worst, abs((obj_(pp)[0] - obj_(pm)[0]) / 2e-4 - grad_[k][j].real))
+        if grad_.shape != (2 * N, M) or worst > 1e-5 or ddev > 1e-9:
+            chk.fail("gradient-vs-finite-differences", f"state_gradient with a {N}-step process tensor and a {2 * N} x {M} parameter table: gradient of shape {grad_.shape} "
+                     f"deviates from central finite differences by {worst:.2e}; reported dynamics deviate from the forward dynamics by {ddev:.2e}", info)
+
     # ---- the same ParameterizedSystem object with process tensors of two different time steps (a convergence check in dt):
     # the second gradient must be what a fresh system gives ---------------------------------------------------------------
     for it in range(4 if thorough else 1):
